@@ -484,8 +484,8 @@ def _is_self_as_u8(t):
 
 
 # ------------------------------------------------------------------ C13.3
-def c13_3(ctx, impls):
-    R = "C13.3"
+def framing(ctx, R):
+    """from_bytes / from_bytes_unchecked accept only fully consumed input, in the right trust mode, and are never overridden"""
     fb = ctx.fb
     for nm in ("from_bytes", "from_bytes_unchecked"):
         b = U.body(ctx, R, "chia_traits::streamable::Streamable::" + nm)
@@ -508,6 +508,12 @@ def c13_3(ctx, impls):
     # default methods overridden anywhere?  (an override could skip the framing check)
     over = [p for p in fb.fns if re.match(r"^<.* as chia_traits::streamable::Streamable>::(from_bytes|from_bytes_unchecked|to_bytes|hash)$", p)]
     ctx.ob(R, "no-overrides", not over, "no impl overrides from_bytes/from_bytes_unchecked/to_bytes/hash", found=over)
+
+
+def c13_3(ctx, impls):
+    R = "C13.3"
+    fb = ctx.fb
+    framing(ctx, R)
     # length prefixes: Vec<T>, String, Bytes
     for ty in ("alloc::vec::Vec<T>", "alloc::string::String", "chia_protocol::bytes::Bytes"):
         ms = impls.get(ty)
